@@ -83,6 +83,8 @@ Ltac pose_len_facts :=
              lazymatch goal with _ : len (r_pad a b s) <= _ /\ _ |- _ => fail | _ => pose proof (r_pad_len a b s) end
          | _ : context [r_pad ?a ?b ?s] |- _ =>
              lazymatch goal with _ : len (r_pad a b s) <= _ /\ _ |- _ => fail | _ => pose proof (r_pad_len a b s) end
+         | _ : context [pad_count ?a ?d] |- _ =>
+             lazymatch goal with _ : 0 <= pad_count a d < d |- _ => fail | _ => pose proof (pad_count_range a d ltac:(lia)) end
          | |- context [skipz ?n ?s] =>
              lazymatch goal with _ : len (skipz n s) <= _ /\ _ |- _ => fail | _ => pose proof (skipz_len n s) end
          | _ : context [skipz ?n ?s] |- _ =>
